@@ -23,6 +23,19 @@ SUM = 'portfolio::summary::'
 TXM = 'portfolio::model::tx::'
 
 
+def _const_operands(f):
+    for b in f.blocks.values():
+        for st in b['stmts']:
+            for o in st['r'].get('ops', []):
+                if o.get('k') == 'const':
+                    yield o
+        t = b['term']
+        if t and t['t'] == 'call':
+            for o in t['args']:
+                if o.get('k') == 'const':
+                    yield o
+
+
 def run(prog, rep, tier='quick', config='default'):
     fns = [f for f in prog.product_fns() if f.name.startswith(SUM)]
     if not rep.anchor('module portfolio::summary', fns):
@@ -97,37 +110,61 @@ def run(prog, rep, tier='quick', config='default'):
             rep.violation('R10b', k, where=f.where(s), fn=f.name,
                           detail='a re-emitted sale does not carry the computed superficial loss unforced (from delta.sfl: %s, force: %s): re-running on the summary would '
                                  'compute a different loss or skip validation' % (from_sfl, forced))
-        # every push of a re-emitted row whose delta has an sfl passes this store
-        pushes = [c for c in f.calls if c.short == 'push' and 'model::tx::Tx' in f.ty.get(c.arg_local(0), '') and f.loop_of(c.bb) and f.loop_of(i) and f.loop_of(c.bb)[0] == f.loop_of(i)[0]]
-        for c in pushes:
-            # the Some edge of delta.sfl
-            entry = None
-            for j, b in f.blocks.items():
-                tm = b['term']
-                if tm and tm['t'] == 'switch' and j in f.loop_of(i)[1]:
-                    d = mir.provenance(f, tm['discr'])
-                    if any(of.endswith('TxDelta') and fl == 'sfl' for of, fl in d.fields):
-                        some_t = [tg for v, tg in tm['targets'] if v == 1] or [tm['otherwise']]
-                        entry = some_t[0]
+        # every re-emitted row whose delta has an sfl passes this store: on the way from the Some edge of `delta.sfl` to the push of
+        # the row (store inside the re-emission loop) or to the return of the row (store in a helper mapping a delta to its row)
+        lp = f.loop_of(i)
+        pushes = [c for c in f.calls if c.short == 'push' and 'model::tx::Tx' in f.ty.get(c.arg_local(0), '') and lp and f.loop_of(c.bb) and f.loop_of(c.bb)[0] == lp[0]]
+        returns_row = re.search(r'^(acb::)?portfolio::model::tx::Tx$', f.ty.get(0, '') or '') is not None
+        sinks = [(c.bb, c.where()) for c in pushes] or ([(e, f.where(f.blocks[e]['term'])) for e in f.exits] if returns_row else [])
+        if returns_row and not pushes and not ([c for c in prog.callers.get(f.name, []) if not mir.is_testsupport(c.fn.name)] or
+                                               [1 for g in fns for o in _const_operands(g) if o.get('def') == f.name]):
+            rep.violation('R10b', '%s|anchor-lost:re-emission-helper-unused' % f.name, fn=f.name,
+                          detail='anchor lost: the helper that makes a re-emitted sale\'s loss explicit is not used by the summary code')
+        if not sinks:
+            rep.violation('R10b', '%s|anchor-lost:re-emission-sink' % f.name, fn=f.name,
+                          detail='anchor lost: the row whose loss is made explicit is neither pushed in the same loop nor returned by this function')
+        scope = lp[1] if (pushes and lp) else set(f.blocks)
+        entry = None
+        for j, b in f.blocks.items():
+            tm = b['term']
+            if tm and tm['t'] == 'switch' and j in scope:
+                d = mir.provenance(f, tm['discr'])
+                if any(of.endswith('TxDelta') and fl == 'sfl' for of, fl in d.fields):
+                    some_t = [tg for v, tg in tm['targets'] if v == 1] or [tm['otherwise']]
+                    entry = some_t[0]
+        for (sbb, where) in sinks:
             if entry is None:
                 rep.violation('R10b', '%s|anchor-lost:sfl-branch' % f.name, fn=f.name, detail='anchor lost: branch on TxDelta.sfl in the re-emission loop')
-            elif f.reaches(entry, c.bb, avoid={i}) and entry != i:
-                rep.violation('R10b', '%s|every-sfl-sale-is-made-explicit' % f.name, where=c.where(), fn=f.name,
+            elif entry != i and (sbb == entry or f.reaches(entry, sbb, avoid={i})):
+                rep.violation('R10b', '%s|every-sfl-sale-is-made-explicit' % f.name, where=where, fn=f.name,
                               detail='a sale with a superficial loss can be re-emitted without its loss being made explicit')
             else:
-                rep.ok('R10b', '%s|every-sfl-sale-is-made-explicit' % f.name, where=c.where(), fn=f.name, detail='every path from "delta has an sfl" to the push passes the store')
+                rep.ok('R10b', '%s|every-sfl-sale-is-made-explicit' % f.name, where=where, fn=f.name,
+                       detail='every path from "delta has an sfl" to the %s passes the store' % ('push' if pushes else 'returned row'))
 
     # ------------------------------------------------------------------ R10c: the simple summary purchase
+    # judged on the function with its same-file helpers spliced in (the purchase row may be built by a helper shared with the
+    # annual generator); of nested candidates the outermost one is the generator
+    def _view(f):
+        return f if getattr(f, 'inlined', None) is not None else mir.inline_view(prog, f)
     simple = [f for f in fns if f.kind in ('Fn', 'AssocFn') and 'split_annual' not in f.name and
-              len([s for b in f.blocks.values() for s in b['stmts'] if s['r']['rv'] == 'agg' and s['r']['kind'].endswith('BuyTxSpecifics::BuyTxSpecifics')]) == 1 and
-              not [c for c in f.calls if c.short == 'year']]
+              len([s for b in _view(f).blocks.values() for s in b['stmts'] if s['r']['rv'] == 'agg' and s['r']['kind'].endswith('BuyTxSpecifics::BuyTxSpecifics')]) == 1 and
+              not [c for c in _view(f).calls if c.short == 'year']]
+    inner = {g.name for f in simple for g in prog.callees_closure([getattr(f, 'origin', f)]).values() if g.name != f.name}
+    simple = [f for f in simple if f.name not in inner] or simple
     if rep.anchor('simple-summary generator (one Buy, no year arithmetic)', simple):
-        f = simple[0]
+        f = _view(simple[0])
         buy = [s for b in f.blocks.values() for s in b['stmts'] if s['r']['rv'] == 'agg' and s['r']['kind'].endswith('BuyTxSpecifics::BuyTxSpecifics')][0]
         dep = {}
         for name, o in zip(buy['r'].get('fields', []), buy['r']['ops']):
             org = mir.provenance(f, o, follow_all_call_args=True) if is_place(o) else None
-            dep[name] = ({fl for of, fl in org.fields} if org else set(), {c.short for c in org.calls} if org else set())
+            shorts = {c.short for c in org.calls} if org else set()
+            for kind in (org.aggs if org else []):
+                # `total_acb.map(|acb| acb.div(balance))`: the operation sits in the closure handed to Option::map
+                g = prog.by_crate[f.crate].get(kind[len('closure:'):]) if kind.startswith('closure:') else None
+                if g is not None:
+                    shorts |= {c.short for c in g.calls}
+            dep[name] = ({fl for of, fl in org.fields} if org else set(), shorts)
         problems = []
         if 'share_balance' not in dep.get('shares', (set(),))[0]:
             problems.append('shares do not come from the final share balance')
@@ -135,7 +172,7 @@ def run(prog, rep, tier='quick', config='default'):
         if not ({'total_acb', 'share_balance'} <= aps[0] and 'div' in aps[1]):
             problems.append('price is not (cost base / share balance)')
         com = dep.get('commission', (set(), set()))
-        if com[0] - set() or not (com[1] <= {'zero'}):
+        if com[0] - set() or not ({x for x in com[1] if x != 'zero'} <= set()):
             problems.append('commission is not zero')
         txagg = [s for b in f.blocks.values() for s in b['stmts'] if s['r']['rv'] == 'agg' and s['r']['kind'].endswith('model::tx::Tx::Tx')]
         if txagg:
@@ -182,8 +219,18 @@ def run(prog, rep, tier='quick', config='default'):
             rep.violation('R10e', 'anchor-lost:per-year-loop', fn=f.name, detail='anchor lost: loop over the years with gains that emits the synthetic sales')
 
     # ------------------------------------------------------------------ R10f: the boundary is set by the FIRST later superficial loss
+    def _finds_first_sfl(f):
+        # `deltas[i + 1..].iter().find(|d| d.is_superficial_loss())`
+        out = []
+        for c in f.calls:
+            if c.decl.endswith('Iterator::find') and re.search(r'slice::Iter<.*TxDelta', f.ty.get(c.arg_local(0), '') or '') and len(c.args) > 1:
+                g = mir._closure_fn_of(prog, f, c.args[1])
+                if g is not None and any(x.short == 'is_superficial_loss' or (x.short == 'is_some' and any(fl == 'sfl' for (_, fl) in mir.provenance(g, x.args[0]).fields))
+                                         for x in g.calls):
+                    out.append(c)
+        return out
     bfn = [f for f in fns if f.kind in ('Fn', 'AssocFn') and any(c.callee == first.name for c in f.calls) and not any(c.callee.endswith('last_day_in_superficial_loss_period') for c in f.calls)
-           and len([1 for (nc, h, b) in f.iterator_loops()]) >= 2]
+           and (len([1 for (nc, h, b) in f.iterator_loops()]) >= 2 or (_finds_first_sfl(f) and f.iterator_loops()))]
     if rep.anchor('summary-range function (scans for later superficial losses)', bfn):
         f = bfn[0]
         hit = False
@@ -206,12 +253,30 @@ def run(prog, rep, tier='quick', config='default'):
                                      'start with that of a LATER loss: rows inside the first loss\'s window would be summarised away')
             else:
                 rep.ok('R10f', k, where=wcalls[0].where(), fn=f.name, detail='the scan stops at the first later superficial loss (no path from the window computation back to the loop head)')
+        for c in _finds_first_sfl(f):
+            # the same scan as `find`: the first match in iteration order — forward unless the slice iterator was reversed
+            src = mir.provenance(f, c.args[0], follow_all_call_args=True)
+            fwd = not any(x.short in ('rev', 'rfind', 'last', 'max_by_key', 'min_by_key', 'skip', 'step_by') for x in src.calls)
+            feeds = [w for w in f.calls if w.callee == first.name and c in mir.provenance(f, w.args[0], follow_all_call_args=True).calls]
+            if not feeds:
+                continue
+            hit = True
+            k = '%s|first-later-loss-sets-the-boundary' % f.name
+            if fwd:
+                rep.ok('R10f', k, where=c.where(), fn=f.name, detail='the window start is computed from Iterator::find (first match, forward) over the rows after the summary date')
+            else:
+                rep.violation('R10f', k, where=c.where(), fn=f.name,
+                              detail='the superficial loss that sets the window start is not the first one after the summary date (the scan is reversed / skips rows)')
         if not hit:
             rep.violation('R10f', 'anchor-lost:forward-scan', fn=f.name, detail='anchor lost: forward scan over the deltas after the summary date')
 
     # ------------------------------------------------------------------ R10d
-    host = [f for f in fns if f.kind in ('Fn', 'AssocFn') and any(c.callee == (simple[0].name if simple else '') for c in f.calls)]
-    if host:
+    sname = simple[0].name if simple else ''
+    host = [f for f in fns if f.kind in ('Fn', 'AssocFn') and f.name != sname and
+            (any(c.callee == sname for c in f.calls) or any(o.get('def') == sname for o in _const_operands(f)))]     # called, or taken as a fn pointer
+    if not host:
+        rep.violation('R10d', 'anchor-lost:summary-host', detail='anchor lost: the function that invokes the simple-summary generator and orders the rows')
+    else:
         f = host[0]
         sorts = [c for c in f.calls if c.short in ('sort', 'sort_unstable') and re.search(r'slice::<impl \[T\]>::', c.callee) and 'model::tx::Tx' in f.ty.get(c.arg_local(0), '')]
         if sorts:
